@@ -137,6 +137,19 @@ def exVal : Val :=
 example : Reg "d 1".toList ∧ Reg "é.txt".toList := by
   constructor <;> (refine ⟨?_, ?_, ?_, ?_, ?_, ?_⟩ <;> decide)
 
+/-- the hypothesis of `remap_roundtrip_partial` is satisfiable: a File object with a path below `/old` whose name has a
+space in it -/
+example : GoodVal ["old".toList] .value (exFile (absStr ["old".toList, "a b".toList]) .onil) := by
+  have hf : isFileObj (exFile (absStr ["old".toList, "a b".toList]) .onil) = true := by decide +kernel
+  have hg : GoodStr ["old".toList] (absStr ["old".toList, "a b".toList]) :=
+    Or.inl ⟨["a b".toList], by simp, fun w hw => by
+      simp at hw; subst hw; refine ⟨?_, ?_, ?_, ?_, ?_, ?_⟩ <;> decide, Or.inl rfl⟩
+  unfold exFile at hf ⊢
+  simp only [GoodVal, hf, if_true]
+  refine ⟨?_, ?_, trivial⟩
+  · rw [if_neg (by decide), if_neg (by decide)]; trivial
+  · rw [if_pos (by decide)]; exact ⟨_, rfl, hg⟩
+
 example : remapValue [] "/old".toList "/new".toList exVal ≠ some exVal ∧
     (remapValue [] "/old".toList "/new".toList exVal).bind (remapValue [] "/new".toList "/old".toList) = some exVal := by
   constructor <;> decide +kernel
